@@ -69,7 +69,7 @@ func (c *Compiler) validateGrouping(
 	}
 
 	group_map[g.Name()] = true
-	for _, u := range g.ChildrenByType(parse.NodeUses) {
+	for _, u := range usesBelow(g) {
 		gname := u.ArgIdRef()
 		mod, err := u.GetModuleByPrefix(
 			gname.Space, c.modules, c.skipUnknown)
@@ -99,6 +99,23 @@ func (c *Compiler) validateGrouping(
 	delete(group_map, g.Name())
 
 	return nil
+}
+
+// usesBelow returns every uses statement that expanding n will follow: its
+// own and those nested in its data nodes, but not those of groupings that are
+// merely defined inside it (they matter only where they are used).
+func usesBelow(n parse.Node) []parse.Node {
+	var uses []parse.Node
+	for _, ch := range n.Children() {
+		switch ch.Type() {
+		case parse.NodeUses:
+			uses = append(uses, ch)
+		case parse.NodeGrouping:
+		default:
+			uses = append(uses, usesBelow(ch)...)
+		}
+	}
+	return uses
 }
 
 func isMandatory(nod parse.Node) bool {
